@@ -77,11 +77,27 @@ def hashtag_obligation(run):
     if r["res"] == "error" or not r["cross"]:
         run.ob(oid, "inconclusive", reason="solver error or no cross-kind arm recognised", **common)
         return
-    if r["res"] == "unsat":
-        run.ob(oid, "pass", nonvacuous=True, note="%d cross-kind arms; the kinds of each hash with the same tag" % len(r["cross"]), **common)
+    try:
+        r2 = p_eqtab.analyse_hash_identity(open(out).read(), kinds)
+    except Exception as ex:
+        run.ob(oid, "inconclusive", reason="extraction failed (identity table): %s" % str(ex)[-300:], **common)
         return
-    pairs = [p_eqtab.HASH_PAIR_EXPR[c] for c in r["cross"] if c in p_eqtab.HASH_PAIR_EXPR]
-    what = "the equality handler compares %s structurally, the hash mixes their kinds in" % ", ".join("%s with %s" % c for c in r["cross"][:2])
+    common["solver_checks"] = 2
+    run.samples.append({"engine": "mir-smt", "query": "exists kind k (user-defined custom types excluded): the arm of Hash::hash for k hashes a pointer (as_ptr / as_ptr_usize) AND the equality handler's arm for (k, k) compares contents",
+                        "kinds hashed by identity": r2["identity_hashed"], "kinds compared by value": r2["compared_by_value"]})
+    if r2["res"] == "error" or len(r2["compared_by_value"]) < 10 or len(r2["identity_hashed"]) < 3:
+        run.ob(oid, "inconclusive", reason="solver error or vacuous identity / value tables", **common)
+        return
+    if r["res"] == "unsat" and r2["res"] == "unsat":
+        run.ob(oid, "pass", nonvacuous=True, note="%d cross-kind arms hash with the same tag; none of the %d kinds compared by value is hashed by identity" % (len(r["cross"]), len(r2["compared_by_value"])), **common)
+        return
+    if r["res"] == "sat":
+        pairs = [p_eqtab.HASH_PAIR_EXPR[c] for c in r["cross"] if c in p_eqtab.HASH_PAIR_EXPR]
+        what = "the equality handler compares %s structurally, the hash mixes their kinds in" % ", ".join("%s with %s" % c for c in r["cross"][:2])
+    else:
+        pairs = [p_eqtab.HASH_VALUE_EXPR[k] for k in r2["bad"] if p_eqtab.HASH_VALUE_EXPR.get(k)]
+        what = "values of kind %s are compared by their contents but hashed by their address" % ", ".join(r2["bad"])
+        r = dict(r, cross=[(k, k) for k in r2["bad"]])
     try:
         shutil.copy(os.path.join(ws.VERIF, "harness", "arity_replay.rs"), os.path.join(wsdir, "crates", "steel-core", "tests", "verif_arity_replay.rs"))
         p = subprocess.run(["cargo", "test", "--offline", "-p", "steel-core", "--no-default-features", "--features", ws.FEATURES,
@@ -142,7 +158,11 @@ def eqsides_obligation(run):
         return
     viol, known, incon = [], [], []
     for b in r["bad"]:
-        if b["fact"] == "visited-key":
+        if b["fact"] == "verdict":
+            ks = ["early-true"]
+            what = "a block that answers `true` is reachable from an arm of the comparison without emptying the work lists (blocks %s)" % b["blocks"][:4]
+            pairs = p_eqsides.EARLY_PAIRS
+        elif b["fact"] == "visited-key":
             ks = ["shared-substructure"]
             what = ("%d `should_visit` site(s) (kinds %s) remember a sub-object under a key made from ONE side only: the second occurrence of a shared "
                     "sub-object counts as already compared whatever stands opposite it" % (b["sites"], ", ".join(b["kinds"])))
@@ -150,7 +170,7 @@ def eqsides_obligation(run):
         else:
             ks = b["site"]["kinds"] if b["fact"] == "two-sided" else [b["kind"]]
             pairs = [p for k in ks for p in p_eqsides.PAIRS.get(k, [])]
-        what = what if b["fact"] == "visited-key" else ("`%s` in the arm for %s takes both operands from the %s value: the value is compared with itself" % (b["site"]["what"], "/".join(ks), "left" if b["site"]["a"] == 0 else "right")
+        what = what if b["fact"] in ("visited-key", "verdict") else ("`%s` in the arm for %s takes both operands from the %s value: the value is compared with itself" % (b["site"]["what"], "/".join(ks), "left" if b["site"]["a"] == 0 else "right")
                 if b["fact"] == "two-sided" else "the arm for %s iterates over one operand without comparing the two lengths" % b["kind"])
         obs = None
         try:
